@@ -5,6 +5,8 @@
 From Coq Require Import NArith ZArith List Bool.
 Require Import Board Move GameOver PtnMove Playtak Tps TotalFacts PtnFile PtnFileTotalThm Tei TeiTotal.
 Require Bot BotLine BotLineFacts.
+Require WeightsJson WeightsJsonFacts Generated.Consts.
+From Coq Require Permutation.
 
 Theorem C13_parse_move_total : forall s : list N, PtnMove.parse_move s <> PtnMove.Panic.
 Proof. exact parse_move_total. Qed.
@@ -73,6 +75,45 @@ Theorem C13_chat_total :
 Proof. exact BotLineFacts.chat_total. Qed.
 Print Assumptions C13_chat_total.
 
-(* Not a theorem: Weights.UnmarshalJSON is a thin wrapper around encoding/json, which is trusted to be total; that entry point is
-   decided by the crash/hang oracle only.  "Bounded time" is by construction for the Gallina models (structural recursion); for
-   the Go code it is checked by a deadline. *)
+(* The evaluation-weight JSON (ai/json.go).  encoding/json stays trusted; the Go-specific part is modelled in WeightsJson.v:
+   unmarshal_post names maxf pairs ws = the loop of UnmarshalJSON over the decoded map h (for k, v := range h: look k up in
+   featureNames - Err if unknown -, ws[f] = v - Panic if f is not below the array length MaxFeature), marshal_pre = the loop of
+   MarshalJSON.  Generated.Consts.gen_featureNames is featureNames AS BUILT BY init(), read from the linked package by
+   harness/cmd/genconsts on every check run (with gen_MaxFeature and gen_featureStrings = Feature(i).String(), i < MaxFeature).
+
+   Every index of the regenerated table is below MaxFeature: by computation over the regenerated constants, so a table into
+   which an out-of-range entry leaks (e.g. the stringer's sentinel "MaxFeature" -> 36) breaks THIS obligation on the next run. *)
+Theorem C13_weights_names_in_range :
+  forallb (fun p => N.ltb (snd p) (N.of_nat Generated.Consts.gen_MaxFeature)) Generated.Consts.gen_featureNames = true.
+Proof. exact WeightsJsonFacts.weights_names_in_range. Qed.
+Print Assumptions C13_weights_names_in_range.
+
+(* hence the post-processing never panics, for EVERY decoded map (any pairs, in any order, any previous contents of ws) *)
+Theorem C13_weights_unmarshal_total : forall (pairs : list (list N * Z)) (ws : list Z),
+  WeightsJson.unmarshal_post Generated.Consts.gen_featureNames (N.of_nat Generated.Consts.gen_MaxFeature) pairs ws <> PtnMove.Panic.
+Proof. exact WeightsJsonFacts.weights_unmarshal_total. Qed.
+Print Assumptions C13_weights_unmarshal_total.
+
+(* Go's map iteration order is unspecified: for any table whose indices are in range (in particular the regenerated one) the
+   outcome class (0 = value, 1 = error) is "error iff some key is unknown", the same for every order of the pairs. *)
+Theorem C13_weights_class_order_free : forall (names : list (list N * N)) (maxf : N),
+  WeightsJsonFacts.in_range_table names maxf = true ->
+  forall pairs pairs' ws ws', Permutation.Permutation pairs pairs' ->
+  WeightsJson.res_class (WeightsJson.unmarshal_post names maxf pairs ws) = (if forallb (WeightsJsonFacts.known names) pairs then 0%N else 1%N) /\
+  WeightsJson.res_class (WeightsJson.unmarshal_post names maxf pairs ws) = WeightsJson.res_class (WeightsJson.unmarshal_post names maxf pairs' ws').
+Proof. exact (fun names maxf H pairs pairs' ws ws' P => conj (WeightsJsonFacts.unmarshal_class names maxf H pairs ws)
+                (WeightsJsonFacts.unmarshal_class_order names maxf H pairs pairs' ws ws' P)). Qed.
+Print Assumptions C13_weights_class_order_free.
+
+(* the table is the inverse of the stringer on 0 .. MaxFeature-1 and has exactly MaxFeature entries; marshal then unmarshal
+   (into zeroed slots) gives back every weight set of DefaultWeights (by computation over the regenerated constants; the round
+   trip for ARBITRARY weight sets is not proved). *)
+Theorem C13_weights_tables_roundtrip_partial :
+  WeightsJsonFacts.tables_agree = true /\ forallb WeightsJsonFacts.rt_row Generated.Consts.gen_DefaultWeights = true.
+Proof. exact (conj WeightsJsonFacts.weights_tables_agree WeightsJsonFacts.weights_roundtrip_defaults). Qed.
+Print Assumptions C13_weights_tables_roundtrip_partial.
+
+(* Not a theorem: encoding/json itself (the decoding of the text into map[string]int64, the encoding of the map) is trusted
+   to be total; the J family is decided by the crash/hang oracle, and by the model's class whenever the text is a JSON object
+   of integers.  "Bounded time" is by construction for the Gallina models (structural recursion); for the Go code it is checked
+   by a deadline. *)
